@@ -331,6 +331,33 @@ def load_findings(pid):
 # ---------------------------------------------------------------------------------------------------
 # check context
 
+def anchored_files(pid=None):
+    out = {}
+    for l in open(V + '/properties.jsonl'):
+        d = json.loads(l)
+        if pid is None or d['id'] == pid:
+            for f in d['anchors']['files']:
+                out.setdefault(f, []).append(d['id'])
+    return out
+
+
+def source_drift(pid):
+    """anchored files of the property whose content differs from the pinned fingerprint (missing pin = no drift info)"""
+    try:
+        pins = json.load(open(V + '/tools/anchors_pinned.json'))
+    except (OSError, ValueError):
+        return []
+    out = []
+    for f in anchored_files(pid):
+        try:
+            h = hashlib.sha256(open(REPO + '/' + f, 'rb').read()).hexdigest()
+        except OSError:
+            h = 'missing'
+        if f in pins and pins[f] != h:
+            out.append(f)
+    return out
+
+
 class Ctx:
     def __init__(self, pid, tier, seed):
         self.pid = pid
@@ -351,6 +378,13 @@ class Ctx:
         self.notes = []
         self.extra = {}
         self.known, self.fixed = load_findings(pid)
+        # source drift: when a file the property is anchored in differs from the pinned fingerprint (tools/anchors_pinned.json,
+        # written by tools/pin_anchors.py after every commit to /repo), the quick tier looks deeper (drivers multiply their
+        # case counts by ctx.scale). Drift alone never raises an alarm.
+        self.drift = source_drift(pid)
+        self.scale = 4 if (self.drift and tier != 'thorough') else 1
+        if self.drift:
+            self.notes.append('source drift in %s: quick tier scaled x%d' % (', '.join(self.drift), self.scale))
 
     def count(self, key, n=1):
         self.dist[key] = self.dist.get(key, 0) + n
